@@ -5,7 +5,7 @@ import EyeballVerif.Lemmas.ConcInv
 namespace EV
 
 def COp.needsClone : COp → Bool
-  | .set _ | .get | .dropClone => true
+  | .set _ | .get | .dropClone | .sne _ | .update _ => true
   | _ => false
 
 theorem init_thAt (v c n : Nat) (ops : List (COp × Bool)) (t : Nat) (ht : t < ops.length) :
@@ -71,6 +71,10 @@ theorem winv_init (v c n : Nat) (ops : List (COp × Bool)) (hc : 1 ≤ c)
     simp [Th.closing, this.1] at hcl
   · simp only [CS.init]; rw [countP_init_holds]; exact hh
   · simp only [CS.init]; rw [countP_init_extra]; omega
+  · intro t ht _
+    rw [hlen] at ht
+    obtain ⟨op, fresh, _, h2⟩ := init_thAt v c n ops t ht
+    rw [h2]; simp only [CS.init]; split <;> omega
 
 /-- runs: any schedule (sequence of thread ids; a step that is not enabled is skipped — the thread is blocked) -/
 def CS.run (s : CS) (sched : List Nat) : CS :=
